@@ -49,6 +49,30 @@ class _Stub:
         return _Stub()
 
 
+class _States(_Stub):
+    """pyscript.<var>: the values the driver gives the state variables of a wait expression at the faulty occurrence"""
+    def __getattr__(self, n):
+        if n.startswith("c18g_"):
+            return "1"
+        if n.startswith("c18_"):
+            return "0"
+        return _Stub()
+
+
+class _Task(_Stub):
+    """task.wait_until(state_trigger=EXPR | event_trigger=[name, EXPR]) evaluates EXPR (compiled on its own, as eval does)
+    on behalf of the caller: an exception of the expression is raised at the caller's wait statement"""
+    def __init__(self, ns):
+        self.__dict__["ns"] = ns
+
+    def wait_until(self, **kw):
+        expr = kw["state_trigger"] if "state_trigger" in kw else kw["event_trigger"][1]
+        env = dict(self.__dict__["ns"])
+        env["v"] = 0
+        eval(compile(expr, "<expression>", "eval"), env)  # noqa: S307
+        return {"trigger_type": "state" if "state_trigger" in kw else "event"}
+
+
 def _deco(*a, **k):
     if len(a) == 1 and callable(a[0]) and not k:
         return a[0]
@@ -72,6 +96,8 @@ def cpython_report(files, main_rel, entry_kind, entry_name, expr, root, entry_ca
         ns[d] = _deco
     for o in ("vf", "task", "log", "state", "event", "pyscript"):
         ns[o] = _Stub()
+    ns["pyscript"] = _States()
+    ns["task"] = _Task(ns)
     err = None
     try:
         path = os.path.join(root, main_rel)
@@ -95,6 +121,7 @@ def cpython_report(files, main_rel, entry_kind, entry_name, expr, root, entry_ca
             del sys.modules[k]
     if err is None:
         return None
+    waits = entry_kind == "func"       # a function that waits for an expression: the expression's own frame is part of the traceback
     te = traceback.TracebackException.from_exception(err)
     parts = []
 
@@ -108,6 +135,8 @@ def cpython_report(files, main_rel, entry_kind, entry_name, expr, root, entry_ca
             if fs.filename.startswith(root + os.sep):
                 r = os.path.relpath(fs.filename, root)
                 frames.append({"file": r, "name": c18gen.ctx_of(r) if fs.name == "<module>" else fs.name, "line": fs.lineno, "expr": False})
+            elif fs.filename == "<expression>" and waits:
+                frames.append({"file": fs.filename, "name": fs.name, "line": fs.lineno, "expr": False})
         parts.append({"rel": rel, "exc": t.exc_type.__name__, "frames": frames})
     walk(te, "final")
     return parts
@@ -180,6 +209,8 @@ def run_batch(job):
         for c in cases:
             hass.states.async_set("pyscript.c18_%s" % c["spec"]["pid"], "5")
             hass.states.async_set("pyscript.c18b_%s" % c["spec"]["pid"], "0")
+            if c["spec"]["entry"] == "wait-expr":
+                hass.states.async_set("pyscript.c18g_%s" % c["spec"]["pid"], "0")
 
     async def body(w):
         hass, loop = w.hass, w.loop
@@ -231,6 +262,20 @@ def run_batch(job):
                             hass.states.async_set("pyscript.c18_%s" % pid, str(v))
                             await w.settle()
                             hass.bus.async_fire("ev_%s" % pid, {"v": v})
+                        elif e == "wait-expr":
+                            # the function starts and waits (gate closed: the chain is not evaluated); then the value is set and
+                            # the gate opens: the expression is evaluated WHILE the function waits
+                            hass.bus.async_fire("ev_%s" % pid, {"v": v})
+                            await w.settle()
+                            hass.states.async_set("pyscript.c18_%s" % pid, str(v))
+                            await w.settle()
+                            hass.states.async_set("pyscript.c18g_%s" % pid, "1")
+                            await w.settle()
+                            hass.states.async_set("pyscript.c18g_%s" % pid, "0")
+                        elif e == "wait-filter-expr":
+                            hass.bus.async_fire("ev_%s" % pid, {"v": v})
+                            await w.settle()
+                            hass.bus.async_fire("ev2_%s" % pid, {"v": v})
                         elif e == "service-func":
                             await hass.services.async_call("pyscript", "entry_%s" % pid, {"v": v}, blocking=True)
                         await w.settle()
@@ -276,7 +321,7 @@ def run_batch(job):
                 loaded = sorted(n for n in GlobalContextMgr.contexts if pid in n)
                 same = [ran(recs, "bystander", pid), ran(recs, "bystander-svc", pid), ran(recs, "bystander-st", pid)]
                 # runtime fault: all three must still serve (min = 1); load-time fault: none may (max = 0)
-                results[c["id"]] = {"steps": steps, "by_same": max(same) if e == "load" else min(same), "by_same_detail": same, "left": left,
+                results[c["id"]] = {"steps": steps, "by_same_detail": same, "left": left,
                                     "by_other": min(ran(recs, "bystander-file", "a"), ran(recs, "bystander-file", "z")),
                                     "loaded": loaded, "root": root}
         finally:
@@ -291,7 +336,8 @@ def run_batch(job):
             first = P.chain[0] if P.chain else None
             expr, _arg = c18gen.expr_of(spec, P.call_text(first, P.main_rel)) if (first and P.entry_unit["kind"] == "expr") else (None, None)
             cdir = os.path.join(cpy_root, c["id"].replace("/", "_"))
-            ecall = {"trigger-func": "kw-v", "service-func": "kw-v", "trigger-func-state": "kw-value"}.get(spec["entry"], "pos")
+            ecall = {"trigger-func": "kw-v", "service-func": "kw-v", "trigger-func-state": "kw-value", "wait-expr": "kw-v",
+                     "wait-filter-expr": "kw-v"}.get(spec["entry"], "pos")
             cpy = cpython_report(P.files, P.main_rel, P.entry_unit["kind"], P.entry_unit["name"], expr and expr.replace(_arg, "v"), cdir, ecall)
             # the report of the faulty step
             fs = [s for s in res["steps"] if s["v"] == 0][0]
@@ -353,21 +399,37 @@ def to_case(x):
         steps.append({"v": s["v"], "returned": s["returned"] is True, "done": s["done"], "own": n["own"], "module": n["module"],
                       "integration": n["integration"], "foreign": s["foreign"] + s["loopexc"]})
     return {"id": x["id"], "entry": x["entry"], "sub": x["sub"], "units": units, "entry_unit": x["entry_unit"],
-            "cpy": strip_frames(x["cpy"]) if x["cpy"] else [], "obs": obs, "steps": steps,
-            "by_same": x["contain"]["by_same"], "by_other": x["contain"]["by_other"], "left": len(x["contain"]["left"]),
+            "cpy": strip_frames(x["cpy"]) if x["cpy"] else [], "cpy_raised": bool(x["cpy"]), "obs": obs, "steps": steps,
+            "by_same_min": min(x["contain"]["by_same_detail"]), "by_same_max": max(x["contain"]["by_same_detail"]),
+            "by_other": x["contain"]["by_other"], "left": len(x["contain"]["left"]),
             "main_loaded": ("file." + pid) in x["contain"]["loaded"],
             "nmodfail": sum(1 for u in units if u["kind"] == "module" and u["id"] != x["entry_unit"])}
 
 
-def validate(ctx, recs, label):
+class _Merged:
+    """verdicts of the chunks of one batch (each chunk is one TLC run of the acceptor)"""
+    def __init__(self, parts):
+        self.rejects = [r for p in parts for r in p.rejects]
+        self.distinct = sum(p.distinct for p in parts)
+
+
+def validate(ctx, recs, label, chunks=1):
     cases = [to_case(x) for x in recs]
-    path = os.path.join(ctx.scratch, "c18_%s.json" % label)
-    json.dump(cases, open(path, "w"))
-    res = tlc.accept_batch("FaultTrace", path, ctx.scratch, timeout=1800)
-    if res.distinct != len(cases) + 1:
-        raise MachineryFailure("FaultTrace visited %d states for %d cases" % (res.distinct, len(cases)))
-    ctx.add_tlc(res, "FaultTrace:" + label)
-    return cases, res
+    chunks = max(1, min(chunks, len(cases) // 20 or 1))
+    thunks = []
+    for k in range(chunks):
+        part = cases[k::chunks]
+        path = os.path.join(ctx.scratch, "c18_%s_%d.json" % (label, k))
+        json.dump(part, open(path, "w"))
+        sub = os.path.join(ctx.scratch, "acc_%s_%d" % (label, k))
+        os.makedirs(sub, exist_ok=True)
+        thunks.append((len(part), (lambda path=path, sub=sub: tlc.accept_batch("FaultTrace", path, sub, timeout=1800))))
+    results = parallel([t for _, t in thunks], max_workers=min(4, NPROC))
+    for (n, _), res in zip(thunks, results):
+        if res.distinct != n + 1:
+            raise MachineryFailure("FaultTrace visited %d states for %d cases" % (res.distinct, n))
+        ctx.add_tlc(res, "FaultTrace:" + label)
+    return cases, _Merged(results)
 
 
 # ------------------------------------------------------------------------------------------------
@@ -386,7 +448,8 @@ def gen_cases(ctx):
     per_entry = ctx.pick(2, 40)         # programs per (entry kind, masked?) ; every fault position of each
     for entry in c18gen.ENTRIES:
         for masked in (True, False):
-            for _ in range(per_entry):
+            # wait entries: the statements of the waiting function around the wait are trigger-func positions again: one program
+            for _ in range(per_entry if not (ctx.quick and entry in c18gen.WAIT_ENTRIES) else 1):
                 k += 1
                 base = c18gen.gen_spec(r, "c%dx" % k, masked=masked, entry=entry)
                 n = c18gen.Program(c18gen.scaffold(copy.deepcopy(base)), -1).nslots
@@ -402,11 +465,20 @@ def gen_cases(ctx):
     # every link kind on a small fixed shape (so that each known deviation is exercised in every run)
     feats = [["wrapper", "func"], ["samename", "method"], ["func", "samename", "func"], ["classbody", "func"], ["import", "func"], ["func", "import"],
              ["nested", "method"], ["method", "wrapper"], ["func", "lambda"],
-             ["func", "func", "try:none"], ["method", "func", "try:none@entry"], ["func", "nested", "try:none"]]
+             ["func", "func", "try:none"], ["method", "func", "try:none@entry"], ["func", "nested", "try:none"],
+             # the script handles its own fault (nothing may be reported, the run goes on), in the chain and at the entry
+             ["func", "func", "try:swallow"], ["method", "func", "try:swallow@entry"],
+             # a function waiting in task.wait_until for an expression that faults: unguarded, guarded at the wait statement,
+             # re-raised / replaced there, handled inside the expression's own chain
+             ["func", "entry:wait-expr"], ["func", "try:swallow@entry", "entry:wait-expr"], ["method", "func", "entry:wait-filter-expr"],
+             ["func", "try:swallow@entry", "entry:wait-filter-expr"], ["func", "func", "try:swallow", "entry:wait-expr"],
+             ["func", "try:none@entry", "entry:wait-filter-expr"], ["func", "try:reraise@entry", "entry:wait-expr"]]
     for i, kinds_ in enumerate(feats):
         none_at = [x for x in kinds_ if x.startswith("try:")]
-        kinds_ = [x for x in kinds_ if not x.startswith("try:")]
-        for entry in ("load", "service-func", "trigger-func") if not ctx.quick else (("load", "service-func", "trigger-func")[i % 3],):
+        forced = [x[6:] for x in kinds_ if x.startswith("entry:")]
+        kinds_ = [x for x in kinds_ if not x.startswith(("try:", "entry:"))]
+        rot = ("load", "service-func", "trigger-func")
+        for entry in (forced if forced else rot if not ctx.quick else (rot[i % 3],)):
             k += 1
             base = c18gen.gen_spec(r, "c%dx" % k, masked=False, entry=entry, depth=len(kinds_))
             base["leaf_lambda"] = kinds_[-1] == "lambda"
@@ -414,11 +486,14 @@ def gen_cases(ctx):
                 lk["kind"] = kd if kd != "lambda" else "func"
                 lk["try"] = "-"
             base["entry_try"] = "-"
-            if none_at:          # `raise X from None` in a handler: at the entry or at the first link
+            if forced:
+                base["entry_pre"] = 0
+            if none_at:          # a handler (`raise X from None`, swallow, ...): at the entry or at the first link
+                hk = none_at[0][4:].split("@")[0]
                 if none_at[0].endswith("@entry"):
-                    base["entry_try"] = "none"
+                    base["entry_try"] = hk
                 else:
-                    base["links"][0]["try"] = "none"
+                    base["links"][0]["try"] = hk
             n = c18gen.Program(c18gen.scaffold(copy.deepcopy(base)), -1).nslots
             for pos in range(n):
                 sp = copy.deepcopy(base)
@@ -435,6 +510,10 @@ def gen_cases(ctx):
         entry = c18gen.ENTRIES[i % len(c18gen.ENTRIES)]
         base = c18gen.gen_spec(r, "c%dx" % k, masked=True, entry=entry, depth=2)
         base["exc_style"], base["exc"] = style, exc
+        # the kind itself must be what is reported: no handler on the way that replaces or swallows it
+        base["entry_try"] = "-"
+        for lk in base["links"]:
+            lk["try"] = lk["try"] if lk["try"] in ("-", "reraise") else "-"
         masked = style != "fresh-cause" and exc not in ("StopIteration",)
         n = c18gen.Program(c18gen.scaffold(copy.deepcopy(base)), -1).nslots
         pos = r.randrange(n)
@@ -443,6 +522,9 @@ def gen_cases(ctx):
         sub = "legacy" if i % 2 else "dm"
         cases.append({"id": "%s/%s/%s" % (sp["pid"], entry, sub), "spec": sp, "fault_pos": pos, "legacy": sub == "legacy",
                       "masked": masked, "family": "kinds"})
+    dev = os.environ.get("C18_DEV_ENTRIES")          # development aid only: restrict a run to some entry kinds
+    if dev:
+        cases = [c for c in cases if c["spec"]["entry"] in dev.split(",")]
     return cases
 
 
@@ -491,7 +573,7 @@ def report(ctx, recs, res):
 
 
 def selftest(ctx, recs, rejected):
-    good = [x for x in recs if x["id"] not in rejected and x["obs"] and x["obs"][0]["parts"][-1]["frames"]]
+    good = [x for x in recs if x["id"] not in rejected and x["obs"] and x["obs"][0]["parts"][-1]["frames"] and x["cpy"]]
     bad = []
 
     def add(x, tag, f):
@@ -505,6 +587,20 @@ def selftest(ctx, recs, rejected):
 
     def script_frames(y):
         return [f for f in final_frames(y) if not (f.get("expr"))]
+
+    def drop_frame(y, k):
+        del final_frames(y)[k]
+
+    def escapes(x):          # recorded fact (a report exists / CPython raised), used only to choose what to corrupt
+        return bool(x["cpy"])
+
+    def below_wait(x):       # the fault is in the expression's chain (below the wait statement), final traceback not chained
+        fr = [ob for ob in x["obs"] if logger_class(ob["logger"], x["pid"], x["units"])[0] != "integration"]
+        return x["fault"] and x["fault"]["unit"] > 2 and fr and len(fr[0]["parts"]) == 1 and len(fr[0]["parts"][-1]["frames"]) >= 3
+
+    def pick_spread(xs, n):
+        step = max(1, len(xs) // n)
+        return xs[::step][:n]
     for x in good[:10]:
         add(x, "line+1", lambda y: script_frames(y)[-1].__setitem__("line", script_frames(y)[-1]["line"] + 1))
         add(x, "name", lambda y: script_frames(y)[-1].__setitem__("name", "other_function"))
@@ -512,7 +608,7 @@ def selftest(ctx, recs, rejected):
         if len(script_frames(x)) > 1:
             add(x, "frame-dropped", lambda y: final_frames(y).remove(script_frames(y)[0]))
         add(x, "exc-type", lambda y: [ob["parts"][-1].__setitem__("exc", "OtherError") for ob in y["obs"]])
-    cont = [x for x in recs if x["id"] not in rejected and x["entry"] != "load"]
+    cont = [x for x in recs if x["id"] not in rejected and x["entry"] != "load" and x["cpy"] and x["obs"]]
     for x in cont[:8]:
         fi = [i for i, s in enumerate(x["contain"]["steps"]) if s["v"] == 0][0]
         add(x, "not-logged", lambda y: y["contain"]["steps"][fi].__setitem__("reports", []) or y.__setitem__("obs", []))
@@ -522,15 +618,41 @@ def selftest(ctx, recs, rejected):
         add(x, "stopped-serving", lambda y: y["contain"]["steps"][-1].__setitem__("done", 0))
         add(x, "others", lambda y: y["contain"].__setitem__("by_other", 0))
         add(x, "unloaded", lambda y: y["contain"].__setitem__("loaded", []))
-    loads = [x for x in recs if x["id"] not in rejected and x["entry"] == "load"]
+    cont = [x for x in cont if escapes(x)]
+    for x in cont[:8]:
+        add(x, "same-file-bystander", lambda y: y["contain"].__setitem__("by_same_detail", [1, 0, 1]))
+    # faults the script handles itself: any report, a run that does not complete, an unloaded file must be rejected
+    handled = [x for x in recs if x["id"] not in rejected and not escapes(x)]
+    hrun = [x for x in handled if x["entry"] != "load"]
+    sample = [x for x in recs if x["id"] not in rejected and escapes(x) and x["entry"] != "load"]
+    for k, x in enumerate(pick_spread(hrun, 8)):
+        fi = [i for i, s in enumerate(x["contain"]["steps"]) if s["v"] == 0][0]
+        donor = [r for r in sample[k % len(sample)]["contain"]["steps"][1]["reports"] if r["carries"]][0]
+        add(x, "handled-but-reported", lambda y: y["contain"]["steps"][fi]["reports"].append(dict(donor, logger=LOGGER_BASE + "file." + y["pid"] + ".f")))
+        add(x, "handled-but-run-ended", lambda y: y["contain"]["steps"][fi].__setitem__("done", 0))
+    for x in [x for x in handled if x["entry"] == "load"][:3]:
+        add(x, "handled-load-unloaded", lambda y: y["contain"].__setitem__("loaded", []))
+        add(x, "handled-load-lost-trigger", lambda y: y["contain"].__setitem__("by_same_detail", [1, 1, 0]))
+    # a function waiting for an expression: the report is the waiter's frame at the wait statement, the expression's own
+    # frame, the chain - each of them is needed; a second report (the deliverer logging too) is rejected
+    waits = [x for x in recs if x["id"] not in rejected and x["entry"] in c18gen.WAIT_ENTRIES and escapes(x) and below_wait(x)]
+    for x in pick_spread(waits, 6):
+        fi = [i for i, s in enumerate(x["contain"]["steps"]) if s["v"] == 0][0]
+        add(x, "wait-logged-twice", lambda y: y["contain"]["steps"][fi]["reports"].append(dict([r for r in y["contain"]["steps"][fi]["reports"] if r["carries"]][0])))
+        add(x, "wait-expression-frame-dropped", lambda y: drop_frame(y, 1))
+        add(x, "wait-statement-frame-dropped", lambda y: drop_frame(y, 0))
+        add(x, "wait-statement-line", lambda y: final_frames(y)[0].__setitem__("line", final_frames(y)[0]["line"] + 1))
+    if len(hrun) < 5 or len(waits) < 5:
+        raise MachineryFailure("selftest: too few recordings of handled faults (%d) / of faulting wait expressions (%d)" % (len(hrun), len(waits)))
+    loads = [x for x in recs if x["id"] not in rejected and x["entry"] == "load" and escapes(x)]
     for x in loads[:4]:
         add(x, "load-others", lambda y: y["contain"].__setitem__("by_other", 0))
-        add(x, "load-still-serves", lambda y: y["contain"].__setitem__("by_same", 1))
+        add(x, "load-still-serves", lambda y: y["contain"].__setitem__("by_same_detail", [0, 1, 0]))
         add(x, "load-service-left", lambda y: y["contain"].__setitem__("left", ["service"]))
         add(x, "load-loaded", lambda y: y["contain"]["loaded"].append("file." + y["pid"]))
     if len(bad) < 30:
         raise MachineryFailure("selftest: too few recordings to corrupt (%d)" % len(bad))
-    _cases, res = validate(ctx, bad, "corrupt")
+    _cases, res = validate(ctx, bad, "corrupt", chunks=2)
     got = {r["id"] for r in res.rejects}
     missed = [y["id"] for y in bad if y["id"] not in got]
     if missed:
@@ -546,6 +668,7 @@ MODEL_RUNS = [      # (subsystem, flags, invariant expected to be violated or No
     ("legacy", ["load-error-stops-all"], "OthersUndisturbed", "thorough"),
     ("dm", ["logs-twice"], "LoggedOnceOnOwnLogger", "thorough"),
     ("legacy", [], "W_NoFaultCaught", "quick"),
+    ("dm", ["deliverer-logs-too"], "LoggedOnceOnOwnLogger", "thorough"),
 ]
 INVS = ["LoggedOnceOnOwnLogger", "TriggerStillServes", "OthersUndisturbed", "NeverPropagatesIntoHA", "LoadErrorUnloadsOnlyThatFile"]
 
@@ -558,7 +681,7 @@ def model_thunks(ctx):
         p = os.path.join(ctx.scratch, "Faults_%d.cfg" % n)
         invs = INVS if inv is None else [inv]
         open(p, "w").write("SPECIFICATION Spec\nCONSTANTS Sub = \"%s\"\n Flags = {%s}\n MaxOcc = %d\n%s\nCHECK_DEADLOCK FALSE\n" % (
-            sub, ", ".join('"%s"' % f for f in flags), ctx.pick(6, 8), "\n".join("INVARIANT " + i for i in invs)))
+            sub, ", ".join('"%s"' % f for f in flags), ctx.pick(5, 8), "\n".join("INVARIANT " + i for i in invs)))
         thunks.append(((sub, flags, inv), (lambda p=p: tlc.run("Faults", p, ctx.scratch, workers=1, timeout=1200))))
     return thunks
 
@@ -594,14 +717,20 @@ def main(ctx):
     ctx.cov["model_runs"] = [{"sub": s, "flags": f, "expected_violation": i} for (s, f, i), _ in mt]
     recs = [x for r in outs[-1] for x in r]
     t0 = time.time()
-    tcases, res = validate(ctx, recs, "main")
+    tcases, res = validate(ctx, recs, "main", chunks=2)
     ctx.cov["phase_wall_s"]["acceptor"] = round(time.time() - t0, 1)
     ctx.cov["traces_validated_against_impl"] += len(recs)
     report(ctx, recs, res)
     rejected = {r["id"] for r in res.rejects}
     # coverage
     ctx.cov["evaluations"] = len(recs)
-    ctx.cov["cpython_reference_runs"] = sum(1 for x in recs if x["cpy"])
+    ctx.cov["cpython_reference_runs"] = len(recs)         # every program also runs under CPython; the acceptor compares the outcome
+    ctx.cov["cpython_raised"] = sum(1 for x in recs if x["cpy"])
+    ctx.cov["faults_handled_by_the_script"] = {}
+    for x in recs:
+        if not x["cpy"]:
+            key = "%s/%s" % (x["entry"], x["sub"])
+            ctx.cov["faults_handled_by_the_script"][key] = ctx.cov["faults_handled_by_the_script"].get(key, 0) + 1
     ctx.cov["per_entry"] = {}
     ctx.cov["per_deviation"] = {}
     ctx.cov["exception_kinds"] = sorted({x["fault"]["exc"] for x in recs if x["fault"]})
@@ -629,17 +758,25 @@ def main(ctx):
     ctx.cov["unmasked_space"] = {"cases": len(recs) - len(masked), "rejected": sum(1 for x in recs if not x["case"]["masked"] and x["id"] in rejected)}
     # distinct by program description with the case's own identifier removed from all names, entry kind and subsystem
     ctx.cov["distinct_nontrivial"] = len({json.dumps([x["units"], x["entry"], x["sub"]], sort_keys=True).replace(x["pid"], "P") for x in recs
-                                          if any(s["v"] == 0 and s["reports"] for s in x["contain"]["steps"])})
+                                          if any(s["v"] == 0 and s["reports"] for s in x["contain"]["steps"]) or not x["cpy"]})
     ctx.cov["rule"] = ("generated call chains (depth 1-5 over functions, methods, nested functions, decorator wrappers, class bodies, lambdas, "
                        "same-named methods, pyscript modules, module loads; calls and faults inside 26 expression contexts and 11 statement "
-                       "nestings; try/except with re-raise, raise-from, implicit context) x every fault position x 9 entry-point kinds x 2 "
-                       "subsystems + one case per exception kind; non-trivial = the faulty occurrence produced a report; distinct by program "
+                       "nestings; try/except with re-raise, raise-from, implicit context) x every fault position x 11 entry-point kinds (incl. expressions a function waits for in task.wait_until) x 2 "
+                       "subsystems + one case per exception kind; non-trivial = the faulty occurrence produced a report, or the program "
+                       "handles the fault itself (CPython does not raise either); distinct by program "
                        "description, entry kind and subsystem")
     for x in recs[:2]:
         ctx.sample({"id": x["id"], "entry": x["entry"], "sub": x["sub"], "fault": x["fault"], "cpython": x["cpy"],
                     "pyscript": [{"logger": ob["logger"], "parts": strip_frames(ob["parts"])} for ob in x["obs"]]})
-    if ctx.cov["cpython_reference_runs"] < len(recs) * 0.95:
-        raise MachineryFailure("CPython reference missing for %d of %d cases" % (len(recs) - ctx.cov["cpython_reference_runs"], len(recs)))
+    nwait = sum(1 for x in recs if x["entry"] in c18gen.WAIT_ENTRIES and x["cpy"] and x["fault"] and x["fault"]["unit"] > 2)
+    ctx.cov["wait_expression_faults_delivered_to_the_waiter"] = nwait
+    if not os.environ.get("C18_DEV_ENTRIES"):
+        if ctx.cov["cpython_raised"] < len(recs) * 0.6:
+            raise MachineryFailure("the fault escapes in only %d of %d programs" % (ctx.cov["cpython_raised"], len(recs)))
+        if ctx.cov["handler_kinds"].get("swallow", 0) < 5 or len(recs) - ctx.cov["cpython_raised"] < 10:
+            raise MachineryFailure("too few programs that handle their own fault")
+        if nwait < 10:
+            raise MachineryFailure("too few wait expressions whose fault is delivered to the waiting function (%d)" % nwait)
     if ctx.violations:
         # unlisted rejections are reported as such; thin coverage / few acceptable recordings are then consequences, not machinery failures
         ctx.cov["selftest_skipped"] = "violations present"
